@@ -209,6 +209,8 @@ def _dither_case(seed, s, N, dtype, coeff, in_place, layout):
     total = x64 + noise
     kind = np.dtype(dtype).kind
     if kind == "i":
+        if not np.all(np.abs(total) < np.iinfo(dtype).max):
+            return viol  # the sum leaves the integer range: the cast is undefined, outside the lattice
         want = np.array([math.trunc(v) for v in total], dtype=dtype).reshape(N)
         if not _same(got, want):
             bad("int_not_truncated_sum", "x=%r noise=%r: got %r, trunc(x + noise) = %r" % (
